@@ -93,10 +93,10 @@ def search(ctx):
 
 def run(ctx) -> int:
     proof = common.proof_stage(ctx.pid)
-    drv.d1(ctx, WHICH, 20000 if ctx.thorough else 1500, NT)
+    drv.d1(ctx, WHICH, 20000 if ctx.thorough else 5000, NT)
     drv.d2_abort_everywhere(ctx, WHICH, NT)
     ctx.exhaustive.append("an abort at every test index (<= 14) and an internal failure at rmslice call 1..7 of one fixed run per strategy x {line,char}")
-    drv.d2_random(ctx, WHICH, NT, 2500 if ctx.thorough else 250)
+    drv.d2_random(ctx, WHICH, NT, 2500 if ctx.thorough else 600)
     if ctx.thorough:
         sigkill_runs(ctx, 18)
     return common.decide(ctx, proof, RULE, search=search,
